@@ -33,6 +33,7 @@ ATTR = {
     ('strand', 'is_plus'): ('is_plus', 'bool'),
     ('pt', 'offset'): ('pt_offset', 'int'), ('pt', 'span'): ('pt_span', 'int'),
     ('cds', 'start'): ('c_start', 'int'), ('cds', 'end'): ('c_end', 'int'), ('cds', 'cds_prefix'): ('c_prefix', 'dna'), ('cds', 'cds_suffix'): ('c_suffix', 'dna'),
+    ('cds', 'cds_prefix_positions'): ('c_prefix_pos', 'list:int'), ('cds', 'cds_suffix_positions'): ('c_suffix_pos', 'list:int'),
     ('tcfg', 'ref'): ('t_ref', 'range'), ('tcfg', 'region_2'): ('t_r2', 'range'),
     ('tcfg', 'region_1_length'): ('t_e1', 'int'), ('tcfg', 'region_3_length'): ('t_e3', 'int'),
     ('variant', 'pos'): ('v_pos', 'int'), ('variant', 'ref'): ('v_ref_s', 'str'), ('variant', 'alt'): ('v_alt_s', 'str'),
@@ -642,7 +643,7 @@ class Translator:
             return f'(negb (sempty {v}))'
         if t == 'ostr':
             return f'(negb (onull {v}))'
-        if t.startswith('list:'):
+        if t.startswith('list:') or t == 'dna':
             return f'(negb (lempty {v}))'
         raise TransError(f'truth value of a {t}')
 
